@@ -6,6 +6,9 @@ MidKinds == {"dup", "upd", "ins"}
 \* "drop" is the environment's step: the server (or the network) closes the connections that sit idle in the
 \* pool without the client noticing (wait_timeout, restart, fail-over); the programs around it must fare the same
 DropKinds == {"drop", "upd", "q", "prep"}
+\* "commitf" ends a local transaction with a COMMIT the database fails (a deadlock found at commit: InnoDB rolls the
+\* transaction back); the error must reach the application through the proxy as it does on the bare driver
+CommitFKinds == {"upd", "ins", "q"}
 EnvMaxSteps == atoi(IOEnv.MAXSTEPS)
 ScenFile == IOEnv.SCEN_FILE
 Dump ==
